@@ -527,7 +527,8 @@ fn arb_json_type(d: u32) -> BoxedStrategy<Type> {
         2 => proptest::collection::vec(sub.clone(), 0..4).prop_map(tuple_type),
         // empty named tuples / empty vectors hit the known findings F-C13-1/2: kept at low weight so
         // that the search continues behind them
-        2 => proptest::collection::vec(sub.clone(), prop_oneof![1 => Just(0usize), 30 => 1usize..4])
+        2 => prop_oneof![1 => Just(0usize), 30 => 1usize..4]
+            .prop_flat_map({ let sub = sub.clone(); move |n| proptest::collection::vec(sub.clone(), n) })
             .prop_map(|ts| {
                 let names = ["a", "b", "c", "d"];
                 named_tuple_type(ts.into_iter().enumerate().map(|(i, t)| (names[i].to_string(), t)).collect())
